@@ -44,6 +44,10 @@ def _watchdog(signum, frame):
     raise StepCapExceeded("watchdog: %d s of CPU time in one hy.repr call" % WATCHDOG_CPU_S)
 
 
+class _LeaveWith(Exception):
+    pass
+
+
 class PlanError(Exception):
     pass
 
@@ -290,7 +294,16 @@ def build(spec, anc=None):
         return anc[-spec["up"]]
     if t == "kept":
         k = CTX.kept[spec["i"]]
-        return build(k, []) if CTX.kept_is_spec else k
+        obj = build(k, []) if CTX.kept_is_spec else k
+        for j in spec.get("path", []):
+            # an INNER node of the earlier object (reached through that object the first time, named directly now)
+            if isinstance(obj, dict):
+                obj = list(obj.values())[j]
+            elif hasattr(obj, "kids"):
+                obj = obj.kids[j]
+            else:
+                obj = list(obj)[j]
+        return obj
     if t == "list":
         l = []
         anc.append(l)
@@ -513,7 +526,13 @@ def ref_repr(spec, q=False, anc=None):
     if t == "exotic":
         raise Unsupported()
     if t == "kept":
-        return ref_repr(CTX.kept_specs[spec["i"]], q, [])
+        ks = CTX.kept_specs[spec["i"]]
+        if spec.get("path"):
+            if _has_ref(ks):
+                raise Unsupported()   # a cycle may run through nodes above the inner node: the pristine call decides
+            for j in spec["path"]:
+                ks = (ks["items"][j][1] if ks["t"] == "dict" else ks["kids"][j] if ks["t"] == "box" else ks["items"][j])
+        return ref_repr(ks, q, [])
     items = [ref_repr(s, q, anc) for s in spec["items"]]
     if t in ("tuple", "mtuple"):
         return pre + "#(" + " ".join(items) + ")"
@@ -570,6 +589,27 @@ PROBES = [
 ]
 
 
+def _inner_paths(spec, prefix=(), depth=0):
+    """Paths (tuples of child indexes) to inner container / model / box nodes of a spec; sets are skipped (no order)."""
+    out = []
+    t = spec["t"]
+    if depth >= 3:
+        return out
+    if t in ("list", "tuple", "mlist", "mtuple", "mexpr", "mdict"):
+        kids = spec["items"]
+    elif t == "dict":
+        kids = [v for _, v in spec["items"]]
+    elif t == "box":
+        kids = spec["kids"]
+    else:
+        return out
+    for i, c in enumerate(kids):
+        if c["t"] in ("list", "tuple", "dict", "mlist", "mtuple", "mexpr", "mdict", "box"):
+            out.append(prefix + (i,))
+            out += _inner_paths(c, prefix + (i,), depth + 1)
+    return out
+
+
 def generate(rng, tier):
     n = rng.randrange(3, 13)
     ops = []
@@ -595,6 +635,9 @@ def generate(rng, tier):
             # the SAME object as an earlier call, alone or nested inside a fresh container / model
             j = rng.choice(keepable)
             ref = {"t": "kept", "i": j}
+            paths = _inner_paths(ops[j]["value"])
+            if paths and rng.random() < 0.45:
+                ref["path"] = list(rng.choice(paths))
             v = rng.choice([ref, {"t": "list", "items": [{"t": "int", "v": 5}, ref]}, {"t": "mlist", "items": [{"t": "sym", "v": "x"}, ref]},
                             {"t": "tuple", "items": [ref, ref]}, {"t": "mexpr", "items": [{"t": "sym", "v": "g"}, ref]}])
             ops.append({"value": v})
@@ -709,9 +752,14 @@ def execute(desc):
         if pretty_off:
             # the call is made under `with hy.models.pretty(False)`: whatever happens inside (a printer that raises,
             # an injected fault), the configuration must be back afterwards
-            with M.pretty(False):
-                got, n, fired = _call(sut, sut_code, spec, k, exc, register=_S["hy"].repr_register, kept=kept_objs,
-                                      keep_into=slot if keep else None)
+            try:
+                with M.pretty(False):
+                    got, n, fired = _call(sut, sut_code, spec, k, exc, register=_S["hy"].repr_register, kept=kept_objs,
+                                          keep_into=slot if keep else None)
+                    if got[0] == "exc":
+                        raise _LeaveWith()   # the failure of the call leaves the `with` body as an exception
+            except _LeaveWith:
+                pass
             probes["calls_under_pretty_false"] = probes.get("calls_under_pretty_false", 0) + 1
         else:
             got, n, fired = _call(sut, sut_code, spec, k, exc, register=_S["hy"].repr_register, kept=kept_objs,
